@@ -258,6 +258,26 @@ def check_program(case):
                         if not isinstance(raised, KeyError):
                             out.viol('exception-swallowed', '%s returned %r / raised %r, f raises KeyError' % (clab, got, raised), decorator=dname)
                     break       # one position per call is enough for the fallback (every position is a first position of some call)
+            if dname == 'try_list' and C:
+                # a mutable fallback: what the caller does to one returned fallback must not show in the next one
+                out.sub()
+                args, kw = C[-1]
+                vals = list(args) + list(kw.values())
+                if vals:
+                    a2 = tuple('boom' if i == 0 else v for i, v in enumerate(args))
+                    k2 = {k_: ('boom' if len(args) + i == 0 else v) for i, (k_, v) in enumerate(kw.items())}
+                    try:
+                        w = W(fr)
+                        r1 = w(*a2, **k2)
+                        r1.append('seen')
+                        r2 = w(*a2, **k2)
+                        r3 = W(make(sig, raising=True))(*a2, **k2)
+                        out.call(3)
+                        if r2 != [] or r3 != [] or r2 is r1:
+                            out.viol('try-wrong-fallback', 'try_list(%s): after the caller appended to the first fallback, the next fallbacks are %r and %r (expected fresh empty lists)' % (
+                                label, r2, r3), decorator=dname, shared=True)
+                    except Exception as e:
+                        out.viol('try-did-not-catch', 'try_list(%s) twice raised %s: %s' % (label, type(e).__name__, e), decorator=dname, shared=True)
             if dname == 'kwargs_support' and not sig['vk']:
                 for args, kw in C:
                     out.sub()
@@ -312,6 +332,7 @@ CALLS = [
     ('f(1,2)', (1, 2), {}),
     # two keywords with DIFFERENT values in either spelling order: (a=1,b=2) and (b=2,a=1) are one combination, (b=1,a=2) is another
     ('f(a=1,b=2)', (), {'a': 1, 'b': 2}), ('f(b=2,a=1)', (), {'b': 2, 'a': 1}), ('f(b=1,a=2)', (), {'b': 1, 'a': 2}), ('f(a=2,b=1)', (), {'a': 2, 'b': 1}),
+    ('f(3) -> None', (3,), {}), ('f(3,b=0) -> None', (3,), {'b': 0}),
     ("f({'x':1,'y':2})", ({'x': 1, 'y': 2},), {}), ("f({'y':1,'x':2})", ({'y': 1, 'x': 2},), {}), ("f({'y':2,'x':1})", ({'y': 2, 'x': 1},), {}),
 ]
 
@@ -352,6 +373,8 @@ class CacheBfs(BfsSuite):
             count[0] += 1
             if a == 'boom':
                 raise KeyError('boom')
+            if a == 3:
+                return None            # a legitimate result: it is cached like any other
             return ('r', _canon(a), b, count[0])
         g = cache(f)
         model = {}
@@ -383,7 +406,7 @@ class CacheBfs(BfsSuite):
             hit = key in model
             if not hit:
                 bound = dict(zip(('a', 'b'), args), **kw)
-                model[key] = ('r', _canon(bound['a']), bound.get('b', 1), before + 1)
+                model[key] = None if bound['a'] == 3 else ('r', _canon(bound['a']), bound.get('b', 1), before + 1)
             if last:
                 out.call()
                 if exc is not None:
